@@ -2,9 +2,10 @@
 
 Stage 1: TLC checks MC_Dense (spec/FxDense.tla + spec/MC_Dense.tla) over every subscript string
          `blocks,leaf->out` of the bounded family: the transcribed _get_transposed_subscripts raises
-         or returns the subscripts of the exact adjoint under the reference einsum semantics (outside
-         the deviation class Dev_RepeatedLetter, inside which it is shown to be always wrong), accepts
-         exactly the characterised set of strings, is an involution, ...; every terminal state is
+         or returns the subscripts of the exact adjoint under the reference einsum semantics (also
+         when the summed / transposed letter is repeated in the blocks subscripts, the class of the
+         defect O10 repaired by furax a5387e9), accepts exactly the characterised set of strings,
+         is an involution, ...; every terminal state is
          emitted as a case carrying the specification's predictions (constructor outcome, einsum
          validity, output shapes, Error / transposed string, exact operator matrix).
 Stage 2: every case (thorough) or a stratified seeded sample (quick) is executed on the real
@@ -45,7 +46,7 @@ INVARIANT AcceptSet
 INVARIANT Involution
 INVARIANT AcceptedAreValid
 INVARIANT AdjointOrError
-INVARIANT DeviationIsDefect
+INVARIANT RepeatedLetterIsAdjoint
 INVARIANT Emit
 CHECK_DEADLOCK FALSE
 """
@@ -254,7 +255,7 @@ def judge(case: dict, obs: dict, verd: fx.Verdicts, stats: dict) -> None:
     else:
         count('drift_einsum_accepts')   # jnp accepts a string the reference calls invalid: only .T is judged
     # ---- transpose: the adjoint, or rejected
-    must = case['valid'] and case['tok'] and not case['dev'] and case['adj'] == 'ok'
+    must = case['valid'] and case['tok'] and case['adj'] == 'ok'
     if obs['T_exc']:
         if must:
             verd.report(f'rejects_transposable:{lab}',
@@ -264,6 +265,7 @@ def judge(case: dict, obs: dict, verd: fx.Verdicts, stats: dict) -> None:
             count('T_rejected' if obs['T_stage'] == 'transpose' else 'T_rejected_at_first_use')
         return
     if not (obs['T_struct_ok'] and obs['T_adj_ok']):
+        # the class of O10 (repaired by furax a5387e9) keeps its own key: reported again if it ever returns
         cls = 'repeated_letter' if case['dev'] else 'other'
         what = 'structures not swapped' if not obs['T_struct_ok'] else 'matrix is not the transpose'
         verd.report(f'wrong_transpose:{cls}:{sub}', f'op.T is not the adjoint ({what})', case,
@@ -333,7 +335,7 @@ def run(tier: str, seed: int) -> int:
         'strings': len(strings),
         'cases': len(cases),
         'algorithm_returns': len({tuple(c['sub']) for c in cases if c['tok']}),
-        'of_which_deviation_class_O10': len({tuple(c['sub']) for c in cases if c['tok'] and c['dev']}),
+        'of_which_repeated_letter_class_O10': len({tuple(c['sub']) for c in cases if c['tok'] and c['dev']}),
         'valid_einsum_cases': sum(c['valid'] for c in cases),
         'cases_with_exact_matrix': sum(c['hasden'] for c in cases),
     }
